@@ -383,6 +383,14 @@ fn test_history(hist: &History, cx: &mut Cx) -> CaseResult {
     let twin = z.with_time_zone(other_zone.tz.clone());
     ensure!(twin.timestamp() == z.timestamp(), "with-time-zone-changes-instant", "final: twin in {} has a different instant", other_zone.label);
     ensure!(twin == z && twin.cmp(&z) == std::cmp::Ordering::Equal && h(&twin) == h(&z), "eq-ord-hash-not-instant-only", "final: {z} and {twin} are the same instant but compare/hash differently");
+    {
+        // ... in every spelling: values, references, and the mixed reference/value forms
+        use std::cmp::Ordering::Equal;
+        let (a, b) = (&twin, &z);
+        let eqs = [*a == *b, a == b, &a == &b, a == *b, !(a != *b), !(*a != *b), !(a != b), *b == *a, b == *a];
+        let ords = [a.partial_cmp(&b) == Some(Equal), (*a).partial_cmp(&*b) == Some(Equal), a.partial_cmp(&*b) == Some(Equal), !(a < *b), !(a > *b), a <= *b, a >= *b, !(*a < *b), *a <= *b, !(a < b), a >= b];
+        ensure!(eqs.iter().all(|x| *x) && ords.iter().all(|x| *x), "eq-ord-hash-not-instant-only", "final: {z} and {twin} are the same instant but some spelling of ==/!=/</<=/partial_cmp (values, references, reference vs value) disagrees: == forms {eqs:?}, order forms {ords:?}");
+    }
     if z.timestamp().as_nanosecond() < TS_MAX_NS {
         let later = z.timestamp().checked_add(SignedDuration::new(0, 1)).map(|t| t.to_zoned(other_zone.tz.clone()));
         if let Ok(l) = later {
